@@ -236,7 +236,7 @@ class Merger(object):
             offset = int.from_bytes(fid.read(2), byteorder='little')
             fid.seek(offset, 1)
             for i in range(len(self.subdirs)):
-                j0 = templates_l[i - 1].shape[2] if i > 0 else 0
+                j0 = sum(tmp.shape[2] for tmp in templates_l[:i])
                 j1 = j0 + templates_l[i].shape[2]
                 for it in np.arange(templates_l[i].shape[0]):
                     one_template = np.zeros((n_samples, n_channels), dtype=templates_l[0].dtype)
